@@ -186,6 +186,36 @@ def run(ctx):
                             wc, wp = bitvec.value_bits(want_chk, width_of), bitvec.value_bits(provs[1], width_of)
                             if wc and wp and {tuple(map(repr, bx[0])), tuple(map(repr, by[0]))} == {tuple(map(repr, wc[0])), tuple(map(repr, wp[0]))} and (bx[0] == wc[0] or bx[0] == wp[0]):
                                 okdom = True
+            if not okdom:
+                # the same test written as "the phrase is the encoding of its own entropy": the return is dominated by
+                # [word list[g_i] ...] == words, where the g_i are the 11-bit groups of entropy || checksum(entropy). The word
+                # list has no duplicates and every word went through a raising lookup, so this holds iff the low CS bits of
+                # the looked-up indices are the checksum.
+                E2 = tm.binop("bor", tm.binop("shl", tm.b2i(entropy, "big"), cs), want_chk)
+                for e in rets:
+                    for f in rules.all_facts(e):
+                        if not (isinstance(f, T) and f.op == "cmp" and f.args[0] == "eq"):
+                            continue
+                        for A, Bv in ((f.args[1], f.args[2]), (f.args[2], f.args[1])):
+                            A, Bv = rules.unfz(A), rules.unfz(Bv)
+                            if isinstance(A, T) and A.op == "m:split" and len(A.args) == 2 and A.args[1] == " ":
+                                A = rules.unfz(A.args[0])
+                                A = rules.unfz(A.args[1]) if isinstance(A, T) and A.op == "join" and A.args[0] == " " else None
+                            if not (isinstance(A, (list, tuple)) and len(A) == n):
+                                continue
+                            if not (tm.veq(Bv, words) or (isinstance(Bv, (list, tuple)) and len(Bv) == n and all(tm.veq(x, w) for x, w in zip(Bv, ws)))):
+                                continue
+                            good = True
+                            for i, wt in enumerate(A):
+                                wt = rules.unfz(wt)
+                                if not (isinstance(wt, T) and wt.op == "idx" and tm.veq(rules.unfz(wt.args[0]), WL)):
+                                    good = False
+                                    break
+                                want_g = tm.binop("band", tm.binop("shr", E2, 11 * (n - 1 - i)), 0x7FF)
+                                if bitvec.same_int(wt.args[1], want_g, width_of) is not True:
+                                    good = False
+                                    break
+                            okdom = okdom or good
             ok = okret and okdom
             why = "entropy = (value >> %d) as %d bytes: %s; return dominated by checksum comparison: %s" % (cs, ent_bytes, okret, okdom)
             if not okret and rets:
